@@ -38,7 +38,9 @@ def unit(name, props, configs=({},), replay=True, desc="", **extra):
 
 
 def cfg_str(cfg):
-    return ",".join(f"{k}={cfg[k]}" for k in sorted(cfg)) if cfg else ""
+    # lists and tuples print alike (a configuration that went through JSON comes back with lists)
+    show = lambda v: tuple(v) if isinstance(v, list) else v
+    return ",".join(f"{k}={show(cfg[k])}" for k in sorted(cfg)) if cfg else ""
 
 
 # polymorphic helpers usable in both modes ----------------------------------------------------
